@@ -364,7 +364,9 @@ def serialized_key_rule(ctx, rule):
     f = ctx.src(COMP).func("_HierarchicalContainer._serialize_elements")
     loops = [st for st in f.body if isinstance(st, ast.For)]
     ctx.need(len(loops) == 1, "the element loop of _serialize_elements")
-    keyed = [st for st in loops[0].body if isinstance(st, ast.If) and same_expr(st.test, "store_key_in is not None")
+    # (`if store_key_in is None: continue` in front of the store is the same test written as a guard clause)
+    from ..normalize import _dissolve_continue
+    keyed = [st for st in _dissolve_continue(list(loops[0].body)) if isinstance(st, ast.If) and same_expr(st.test, "store_key_in is not None")
              and any(isinstance(x, ast.Assign) and has_code(x, "serialized_element[store_key_in] = key") for x in st.body)]
     ctx.ob(rule, COMP, "_HierarchicalContainer._serialize_elements", "serialized_element[store_key_in] = key for every element",
            len(keyed) == 1,
@@ -658,6 +660,14 @@ def run(ctx):
             lazy.check_eq_through_getitem(ctx, "R2.eq-through-getitem", ci.rel, cls, eq)
             lazy.check_eq_key_sets(ctx, "R2.eq-key-sets", ci.rel, cls, eq)
     ctx.floor("lazy-containers", n_lazy, 3)
+    # the leaves of the hierarchy are value objects: equality looks at everything the constructor stores (data AND mask, array AND encoding)
+    from ..lints import equality_covers_state
+    equality_covers_state(ctx, CIF, "R2.equality-covers-state", ("CIFData", "CIFColumn"))
+    equality_covers_state(ctx, BCIF, "R2.equality-covers-state", ("BinaryCIFData", "BinaryCIFColumn"))
+    # a category is a mapping of columns: both key sets, every column through the lookup
+    cat_eq = ctx.src(CIF).func("CIFCategory.__eq__")
+    lazy.check_eq_key_sets(ctx, "R2.eq-key-sets", CIF, "CIFCategory", cat_eq)
+    lazy.check_eq_through_getitem(ctx, "R2.eq-through-getitem", CIF, "CIFCategory", cat_eq)
     # a refused change leaves the container as it was: the refusal (a `raise` of the method itself included) comes before the first
     # in-place change of the backing store
     from ..lints import raising_functions, validation_before_mutation
@@ -759,6 +769,10 @@ def run(ctx):
 
 
 MUTANTS = [
+    Mutant("column-eq-ignores-mask", CIF, "        if self._mask != other._mask:\n            return False\n        return True\n\n\nclass CIFCategory", "        return True\n\n\nclass CIFCategory", "R2.equality-covers-state"),
+    Mutant("bcif-data-eq-ignores-encoding", BCIF, "        if self._encoding != other._encoding:\n            return False\n", "", "R2.equality-covers-state"),
+    Mutant("bcif-column-eq-flipped", BCIF, "        if self._mask != other._mask:\n            return False\n        return True\n\n\nclass BinaryCIFCategory", "        if self._mask == other._mask:\n            return False\n        return True\n\n\nclass BinaryCIFCategory", "R2.equality-covers-state"),
+    Mutant("category-eq-own-keys-only", CIF, "        # Row count can be omitted here, as it is based on the columns\n        if not isinstance(other, type(self)):\n            return False\n        if set(self.keys()) != set(other.keys()):\n            return False\n", "        if not isinstance(other, type(self)):\n            return False\n", "R2.eq-key-sets"),
     Mutant("container-eq-own-keys-only", COMP, "        if set(self.keys()) != set(other.keys()):\n            return False\n", "", "R2.eq-key-sets"),
     Mutant("category-init-coerces-in-place", CIF, "            columns = {\n                key: CIFColumn(col) if not isinstance(col, CIFColumn) else col\n                for key, col in columns.items()\n            }\n",
            "            for key, col in columns.items():\n                if not isinstance(col, CIFColumn):\n                    columns[key] = CIFColumn(col)\n", "R2.constructor-leaves-arguments"),
